@@ -73,6 +73,7 @@ Probe(how) ==
               [] how = "y+1"  -> <<x, BAddMod(y, "1", C.p)>>
               [] how = "x+1"  -> <<BAddMod(x, "1", C.p), y>>
               [] how = "swap" -> <<y, x>>
+              \* (pairs outside [0, p) are outside the statement: no probes there; C13 asks for them to be refused as peer values)
   IN /\ UNCHANGED <<P, dl>>
      /\ H([op |-> "oncurve", x |-> xy[1], y |-> xy[2], expect |-> OnCurve(C, xy[1], xy[2])])
 
